@@ -182,14 +182,20 @@ CHECKS = {
               'outlived (delivery time-to-live), a receipt naming the id carries the message\'s log_id/extra_data, whatever other '
               'requests, responses, receipts and inbound messages were handled in between; unknown_receipt_after_any_history - '
               'after any history in which nothing was accepted under an id, a receipt naming it gets empty log_id/extra_data. '
-              'For SEGMENTED messages the order-independence over ALL arrival orders of receipts and remaining '
-              'responses is covered by the correspondence + attribution predicate on generated histories (receipts before '
-              'sibling responses, TLV id, duplicates, unknown ids) and by finite kernel-checked tests, not yet by an '
-              'unbounded theorem. Session level (no theorem): real sessions with a scripted SMSC that accepts messages and sends receipts '
+              'SEGMENTED messages, ALL ORDERS (Lemmas/SegResponses.lean, Lemmas/SegReceipts.lean; invariants by induction over the '
+              'arrival order): segmented_message_end_to_end - from the empty correlator the Sender stores the n segments of a message in '
+              'turn, the n accepting responses arrive in ANY permutation and the n receipts in ANY permutation (nothing reaching a '
+              'time-to-live meanwhile): no time-out is reported, the hook is handed n-1 placeholders and then exactly one response, n-1 '
+              'placeholders and then exactly one receipt, both with the message\'s log_id and extra_data; the receipt is the last failing '
+              'one in arrival order if any reports an error, otherwise the first (picked_is_last_failing / picked_is_first_when_none_fails); '
+              'segmented_responses_any_order and segmented_receipts_any_order are the two phases from their own invariants. Not a theorem: '
+              'other traffic interleaved between the segments\' PDUs, and receipts that overtake sibling responses - covered by the '
+              'correspondence + attribution predicate on generated histories (receipts before sibling responses, TLV id, duplicates, '
+              'unknown ids, restarts inside the history, ids differing in case / notation, tracking by extra_data alone). Session level (no theorem): real sessions with a scripted SMSC that accepts messages and sends receipts '
               '(prompt, delayed, with error codes, id in the TLV only, between sibling responses, unknown ids, duplicates) are judged by '
               'the attribution predicate. Reference reuse is the known finding recorded under C01.'),
         note=COMMON_NOTE + 'Atomic handlers; receipt text parsing is C20 and PDU decoding C03/C04; segmentation references assumed unique among live messages.',
-        technique='Lean 4 theorems (single-step refinement lemmas, max-aggregation law); differential correspondence through the real handlers with an attribution predicate'),
+        technique='Lean 4 theorems (single-step refinement lemmas, max-aggregation law, history invariants by induction, any-order theorems over permutations); differential correspondence through the real handlers with an attribution predicate'),
     'C03': dict(
         text=('Proof, PARTIAL. Props/C03.lean over the model of protocol.py pdu()/from_pdu()/parse_header and the TLV codec (after '
               'repairs 2a0ae40, b9c0e0e): command_length equals the number of octets produced for all fifteen classes and every '
@@ -349,4 +355,31 @@ CHECKS = {
               'announcement, first PDU, receiver mode, state per mode and that start() ends without exception (after repair 0eac14c).'),
         note=COMMON_NOTE + 'The abstraction of _send_data in the interleaving theorem (hook call; on return one write of the same bytes in the same turn) is read off esme.py 393-397 by hand and tied by the trace conformance only. PDUs in flight are assumed pairwise distinct (sequence numbers).',
         technique='Lean 4 theorems (monitor soundness, framer correctness, induction over schedules); trace conformance of real sessions on a virtual-time event loop'),
+}
+
+# what the correspondence generators gained after the seeded rounds 6 and 7 (appended to the claim text by mkmanifest)
+ADDENDA = {
+    'C01': ' Session ledger additions: UDH-segmented messages; messages queued while the session is winding down after a drop; a message '
+           'no Sender task reported is the known cancelled-sender finding only if the task holding it was cancelled, not if it ended of '
+           'its own accord.',
+    'C02': '',
+    'C04': ' Foreign PDUs also carry absolute validity periods with every quarter-hour offset of both signs and relative schedule times; '
+           'PDUs are decoded after PDUs the library refuses (decoder keeps no state).',
+    'C06': ' Whole queues also run with a sequence generator that passes the largest SMPP sequence number in the middle of the queue.',
+    'C08': ' Session level: the PDUs the real Sender writes for messages with options and application parameters are read by an independent '
+           'receiver (SAR / UDH, esm_class variants with bits 7-6 set), each after every kind of previous message handled by the same Sender task.',
+    'C09': ' Histories with one source address per message (colliding concatenations), pauses up to the delivery time-to-live between segments.',
+    'C10': ' History cases: the same text through the packed codec in between, one representative of every Unicode category, decoder history.',
+    'C11': ' History cases: repeated texts, decoder input ending in the escape code followed by another input.',
+    'C12': ' Objects are serialised again after the library changed them, the same JSON text is decoded twice with the first result changed in '
+           'between, time fields use the library\'s own tzinfo class.',
+    'C13': ' Exceptions raised by a correlator operation under an interleaving are observations (the check goes on to name the schedule).',
+    'C14': ' The by-the-next-request clause counts the bind request of a reconnect; exceptions raised under an interleaving are observations.',
+    'C15': ' Inbound traffic includes delivery receipts of every shape (without dates, dates with seconds, words for numbers, unknown fields), '
+           'peer unbind followed by enqueues.',
+    'C16': ' Sessions with application submits and a peer that stops reading; arrival times are taken where the PDU is read.',
+    'C17': ' Datetimes of both seasons through ONE rule-based tzinfo object per zone (its offset depends on the date).',
+    'C18': ' An exception out of limit() is an observation judged by the predicate.',
+    'C19': ' Reboot cases: the new process\'s monotonic clock starts over, far below the stamps in the files; the correlations must still be found.',
+    'C20': ' The same DeliverSm is parsed a second time (as the library itself does) and must give the same dictionary.',
 }
